@@ -17,7 +17,11 @@ import (
 type FaultStore struct {
 	inner         physical.TransactionalBackend
 	Count, FailAt int
+	// FailCommit: the Commit of the next transaction is refused (its writes are discarded), once
+	FailCommit bool
 }
+
+const InjectedCommitError = "verif: injected commit failure"
 
 func (f *FaultStore) hit() error {
 	f.Count++
@@ -60,6 +64,15 @@ func (t *faultTx) Put(ctx context.Context, e *physical.Entry) error {
 		return err
 	}
 	return t.Transaction.Put(ctx, e)
+}
+
+func (t *faultTx) Commit(ctx context.Context) error {
+	if t.parent.FailCommit {
+		t.parent.FailCommit = false
+		_ = t.Transaction.Rollback(ctx)
+		return errors.New(InjectedCommitError)
+	}
+	return t.Transaction.Commit(ctx)
 }
 
 // NewFaultStorage returns a transactional logical.Storage over a fresh FaultStore.
